@@ -114,6 +114,7 @@ def run(chk):
     nq = 0
     samples = []
     for wi in range(60 if quick else 400):
+        rng.seed("%d/c13-1/%d" % (chk.seed, wi))      # every world has its own stream: families do not disturb each other
         sph = rng.random() < 0.45
         wj, sph = any_world(rng, spherical=sph, lines=0.5, allow_mass_conserving=True)
         if wi % 4 == 3 and not sph:
@@ -183,6 +184,30 @@ def run(chk):
                     if m.get("model") == "mass conserving" and rng.random() < 0.6:
                         k = rng.choice(["forearc cooling factor", "taper distance", "coupling depth", "min distance slab top", "thermal conductivity"])
                         m[k] = rng.choice([0.0, 0.0, 1e-30, 1e30]) if k != "min distance slab top" else 0.0
+        if wi % 6 == 1:
+            # a slab or fault with uniform grains whose rotation matrices are rounded to a few decimals (not exactly
+            # orthonormal: the quaternions of the section interpolation are not exactly unit, their scalar product may exceed 1)
+            from worlds import line_world
+            wj, sph, lf = line_world(rng, kind=rng.choice(["subducting plate", "fault"]), spherical=False, straight=rng.random() < 0.5,
+                                     uniform_sections=True, allow_mass_conserving=False, extra_area=0.0)
+            for k in ("temperature models", "composition models", "grains models", "velocity models", "sections"):
+                lf.pop(k, None)
+            for sg in lf["segments"]:
+                for k in ("temperature models", "composition models", "grains models", "velocity models"):
+                    sg.pop(k, None)
+            ang = rng.uniform(0, 2 * PI)
+            dec = rng.choice([2, 3, 4])
+            ca, sa = round(math.cos(ang), dec), round(math.sin(ang), dec)
+            sc = rng.choice([1.0, 1.0, 1.001, 0.999])
+            lf["grains models"] = [{"model": "uniform", "compositions": [0], "rotation matrices": [[[ca * sc, -sa * sc, 0.0], [sa * sc, ca * sc, 0.0], [0.0, 0.0, 1.0]]],
+                                    "grain sizes": [0.5]}]
+            lf["composition models"] = [{"model": "uniform", "compositions": [0]}]
+            wj["features"] = [lf]
+            aimed_profile = []
+            for _k in range(40):
+                qq, dd = line_query(rng, wj, False, lf, spread=rng.choice([0.1, 0.2]))
+                if dd >= 0:
+                    aimed_profile.append(("inside a slab with rounded rotation matrices", qq, dd))
         if wi % 6 == 5:
             # spherical oceanic plates whose ridge is written on the other side of the +-180 meridian from most of the plate,
             # in either direction, with one velocity per ridge coordinate: the nearest ridge point of a query is reached
